@@ -159,17 +159,26 @@ theorem TInv_stepAppFlush {s s' : State} {slot : Nat} (hl : LInv s) (hi : TInv s
     (h : stepAppFlush s slot = some s') : TInv s' := by
   unfold stepAppFlush at h
   leaves h
-  all_goals
-    obtain ⟨k, r, hs⟩ : ∃ k r, s.slots slot = Slot.held k r true := ⟨_, _, by assumption⟩
+  · subst h
+    exact TInv_of_same (s := s) rfl rfl (fun h => h) (fun k => txSame_refl _) hi
+  · subst h
+    exact TInv_of_same (s := s) rfl rfl (fun h => h) (fun k => txSame_refl _) hi
+  · rename_i _ k r hs hp hwb hd
     have hw := (hl.sl slot k r true hs).2 rfl
     have ht := hi.st k
     obtain ⟨t1, t2, t3, t4, t5, t6, t7⟩ := ht
     have ho := t3 hw
     have hpn : (s.st k).pendW = none := by cases hq : (s.st k).pendW <;> simp_all
     subst h
-    first
-      | (refine TInv_of_same (s := s) rfl rfl (fun h => h) (fun k => txSame_refl _) hi; done)
-      | tx_leaf hi s k
+    tx_leaf hi s k
+  · rename_i _ k r hs hd hp hwb
+    have hw := (hl.sl slot k r true hs).2 rfl
+    have ht := hi.st k
+    obtain ⟨t1, t2, t3, t4, t5, t6, t7⟩ := ht
+    have ho := t3 hw
+    have hpn : (s.st k).pendW = none := by cases hq : (s.st k).pendW <;> simp_all
+    subst h
+    tx_leaf hi s k
 
 theorem TInv_stepAppDrop {s s' : State} {slot : Nat} {r w : Bool} (hi : TInv s)
     (h : stepAppDrop s slot r w = some s') : TInv s' := by
